@@ -266,6 +266,97 @@ impl C11 {
     }
 }
 
+impl C11 {
+    /// random history of <= 24 messages with up to 3 workers parked at random phases
+    fn run_random_history(&self, rng: &mut Rng, rep: &mut CaseReport) {
+        lsp::reset_log();
+        mon::drain_thread_panics();
+        let mut lib = lib0();
+        let mut s = Server::start_mem(&lib, "");
+        let keys = ["a", "b"];
+        let mut held: Vec<(i32, Phase)> = vec![];
+        let mut all_ids: Vec<i32> = vec![];
+        let mut script: Vec<String> = vec![];
+        let n = rng.range(6, 24);
+        let mut version = 0;
+        for _ in 0..n {
+            match rng.below(6) {
+                0 | 1 if held.len() < 3 => {
+                    let ph = *rng.pick(&[Phase::Started, Phase::Computed, Phase::Exited]);
+                    let k = *rng.pick(&keys);
+                    let uri = s.uri(k);
+                    let id = s.send_gated("textDocument/formatting", json!({"textDocument": {"uri": uri}, "options": {"tabSize": 2, "insertSpaces": true}}), ph);
+                    if !lsp::wait_parked(id, ph, WD) {
+                        rep.inconclusive.push("worker never parked".into());
+                        lsp::release_all();
+                        s.kill();
+                        return;
+                    }
+                    held.push((id, ph));
+                    all_ids.push(id);
+                    script.push(format!("hold {} at {:?}", id, ph));
+                }
+                2 | 3 => {
+                    version += 1;
+                    let k = *rng.pick(&keys);
+                    let text = format!("# {} v{}\n\nhistory {}\n", k, version, version);
+                    let mark = lsp::event_mark();
+                    if rng.chance(1, 2) {
+                        s.did_change(k, &text);
+                    } else {
+                        s.did_save(k, &text);
+                    }
+                    lib.insert(k.to_string(), text);
+                    script.push(format!("edit {} v{}", k, version));
+                    let _ = lsp::wait_for(|ev, _| ev[mark.min(ev.len())..].iter().any(|e| matches!(e.1, Ev::Applied(_) | Ev::LoopPanicked(_))), WD);
+                    // a request issued after the notification is answered from a state that includes it
+                    let got = s.formatted_text(k);
+                    let want = export_lib(&lib, "");
+                    if got.as_ref() != want.get(k) {
+                        rep.violate("request-after-notification-saw-old-state", "random-history", format!("after `{}` with workers held at {:?}: formatting({}) starts {:?}", script.last().unwrap(), held, k, got.map(|t| t.lines().next().unwrap_or("").to_string())), json!({"script": script}));
+                    }
+                }
+                4 if !held.is_empty() => {
+                    let i = rng.below(held.len());
+                    let (id, ph) = held.remove(i);
+                    lsp::release(id, ph);
+                    let _ = lsp::wait_exited(id, WD);
+                    script.push(format!("release {}", id));
+                }
+                _ => {
+                    let k = *rng.pick(&keys);
+                    let _ = s.formatted_text(k);
+                    script.push(format!("format {}", k));
+                }
+            }
+        }
+        lsp::release_all();
+        for id in &all_ids {
+            let o = s.outcome(*id, WD);
+            if !o.answered() {
+                rep.violate("in-flight-request-unanswered", "random-history", format!("{:?}", o), json!({"script": script}));
+            }
+        }
+        let want = export_lib(&lib, "");
+        for k in keys {
+            let got = s.formatted_text(k);
+            if got.as_ref() != want.get(k) {
+                rep.violate("notification-lost", "random-history", format!("at quiescence formatting({}) starts {:?}, last text sent starts {:?}", k, got.map(|t| t.lines().next().unwrap_or("").to_string()), lib[k].lines().next()), json!({"script": script}));
+                break;
+            }
+        }
+        let evs = lsp::events_since(0);
+        if let Some(Ev::LoopPanicked(m)) = evs.iter().find(|e| matches!(e, Ev::LoopPanicked(_))) {
+            rep.violate("loop-thread-panicked", "random-history", m.clone(), json!({"script": script}));
+        }
+        rep.shape(fnv(&script.iter().map(|l| l.split(' ').next().unwrap_or("").to_string() + l.rsplit(' ').next().unwrap_or("")).collect::<Vec<_>>().join(",")));
+        rep.count("events", 1);
+        rep.count("random_histories", 1);
+        rep.count("h1_events", evs.len() as u64);
+        let _ = s.shutdown();
+    }
+}
+
 fn phase_locus(s: &Schedule) -> String {
     // which in-flight phases were alive when the notification arrived (sorted, deduplicated)
     let mut p: Vec<&str> = s
@@ -298,14 +389,14 @@ impl Check for C11 {
     fn plan(&self, tier: Tier, _seed: u64) -> Plan {
         let n = all_schedules(tier.pick(2, 3)).len() as u64;
         Plan {
-            cases: n + tier.pick(60, 1500),
+            cases: n + tier.pick(200, 10000),
             procs: 16,
             wall_s: 300,
             cpu_s: None,
         }
     }
     fn min_events(&self, tier: Tier) -> u64 {
-        tier.pick(100, 1500)
+        tier.pick(250, 8000)
     }
     fn run_case(&self, tier: Tier, seed: u64, case: u64) -> CaseReport {
         let mut rep = CaseReport::new(case);
@@ -318,8 +409,12 @@ impl Check for C11 {
             }
         } else {
             let mut rng = Rng::for_case(seed, "c11-flood", case);
-            let n = rng.range(20, tier.pick(200, 400));
-            self.run_flood(&mut rng, n, &mut rep);
+            if case % 2 == 0 {
+                let n = rng.range(20, tier.pick(200, 400));
+                self.run_flood(&mut rng, n, &mut rep);
+            } else {
+                self.run_random_history(&mut rng, &mut rep);
+            }
         }
         rep
     }
